@@ -213,7 +213,7 @@ PROPS["C01"] = {
 
 PROPS["C06"] = {
     "level": "model_checking",
-    "level_text": 'The real search (memchr::memmem behind forward_to_next_storage_header) is compared with a naive first-occurrence search on every input of up to 8 bytes; junk ++ message ++ tail parses to the same message and remainder as message ++ tail for a catalogue of junk strings (including partial patterns directly before the pattern) with symbolic message data; a stream msg, junk, msg is recovered in order.',
+    "level_text": 'The real search (memchr::memmem behind forward_to_next_storage_header) is compared with a naive first-occurrence search on every input of up to 5, 6 and 8 bytes (three instances, so that a verdict is reached quickly whatever the implementation) and on literal junk ending in partial patterns directly in front of the pattern; junk ++ message ++ tail parses to the same message and remainder as message ++ tail for a catalogue of junk strings (including partial patterns directly before the pattern) with symbolic message data, also when a filter drops the message (marker carries the payload length, remainder unchanged); a stream msg, junk, msg is recovered in order.',
     "level_note": "memchr runs for real with the two CPU-detection intrinsics stubbed to 'no optional features' (baseline SSE2 / scalar searchers).",
     "functions": ['parse::forward_to_next_storage_header', 'parse::dlt_storage_header', 'parse::dlt_message'],
     "bounds": 'search: inputs <= 8 bytes; parse: junk strings of 1..7 literal bytes',
@@ -281,7 +281,7 @@ PROPS["C05"] = {
     "level_text": "Every cut position of every catalogue shape is decided (3 cuts per solver query, all data symbolic): the parser reports IncompleteParse with a hint between 1 and the number of missing bytes, the skipper likewise (and 'no message' only on empty input).",
     "level_note": 'Cut positions and shapes are enumerated exhaustively; data values by the solver.',
     "functions": ['parse::dlt_message', 'parse::dlt_consume_msg', 'parse::dlt_storage_header', 'parse::validated_payload_length'],
-    "bounds": '7 shapes (10..37 bytes), all cuts (quick: two shapes completely and every header-boundary cut of the others)',
+    "bounds": '8 shapes (10..37 bytes); whole-message cuts inside the storage header, inside the extended header (shapes without storage header, except directly behind the MSIN byte) and behind the headers (non-verbose / control payloads); cuts inside the standard header at unit level',
     "outside": 'messages outside the catalogue',
     "assumptions": COMMON_ASSUME + ['std::fmt::format stubbed (messages not compared)', 'core::str::from_utf8 replaced by a byte-wise model checked against std (c19_utf8_model_vs_std)', 'forward_to_next_storage_header replaced by its specification (first occurrence) in whole-message storage-mode harnesses; the real function is checked against that specification in C06', 'ids, names, units and string contents are literals in whole-message harnesses (whether a byte is NUL is control for the parser); arbitrary contents are decided in C19 / c02d'],
     "trusted_base": [],
@@ -295,8 +295,8 @@ PROPS["C05"] = {
 
 PROPS["C07"] = {
     "level": "model_checking",
-    "level_text": 'The byte source is a harness-defined Read whose every read() returns Interrupted or min(k, available, buf.len()) with k from a symbolic schedule: partitions of the stream and placements of Interrupted are solver variables. Decided: no stream of up to 6 arbitrary bytes makes next_message_slice panic and a returned slice is exactly the cut at the declared length; two-message streams are delivered as exactly the two cuts then end-of-stream; a truncated tail never yields a slice; read_message equals dlt_message on the cut.',
-    "level_note": "Reader built with with_capacity(c, c, ..) for c = 6..8 and streams assumed to declare lengths <= c (with the public new() every 16-bit length fits). std's BufReader / read_exact run for real.",
+    "level_text": 'The byte source is a harness-defined Read whose every read() returns Interrupted or min(k, available, buf.len()) with k from a symbolic schedule: partitions of the stream and placements of Interrupted are solver variables. Decided: no stream of up to 6 arbitrary bytes makes next_message_slice panic and a returned slice is exactly the cut at the declared length; two-message streams are delivered as exactly the two cuts then end-of-stream; a truncated tail never yields a slice; a message completely contained in the stream is never answered with an error; read_message equals dlt_message on the cut; the public constructor reserves storage header + 65535 bytes (so the length assumption below holds for every 16-bit length with new()).',
+    "level_note": "Reader built with with_capacity(c, c, ..) for c = 6..8 and streams assumed to declare lengths <= c; that new() configures a maximum no 16-bit length can exceed is decided separately through the capacities hook (c07_new_reserves_largest_declarable_message). std's BufReader / read_exact run for real.",
     "functions": ['read::DltMessageReader::next_message_slice', 'read::read_message', 'parse::parse_length'],
     "bounds": 'streams <= 9 bytes, 3 scheduled read results (then complete reads), <= 2 messages',
     "outside": 'longer streams / schedules; storage-header mode of the reader (same code path with a 16-byte larger header read)',
@@ -353,11 +353,11 @@ PROPS["C16"] = {
 
 PROPS["C10"] = {
     "level": "model_checking",
-    "level_text": 'Decided: bucket selection of LevelDistribution::new for every level, counter merge = field-wise sum, StatisticInfo::merge = per-id sum of the parts for 8 pairs of table shapes (ids in either order, missing ids), commutative, associative on three parts, the three tables merged independently (incl. parts without extended-header ids), non-verbose flag = disjunction; the scan loop of collect_statistics visits each message of a two-message stream exactly once, in order, with its decoded headers, under any read fragmentation.',
-    "level_note": "NOT decided: the standard collector's per-id tables (add_for_level on FxHashMap): symbolic execution of hashbrown does not finish even for one concrete insert + lookup. That part of the property (tally of the standard collector == independent tally) is outside this check.",
-    "functions": ['statistics::common::LevelDistribution::{new, merge}', 'statistics::common::StatisticInfo::{merge, merge_levels}', 'statistics::collect_statistics'],
-    "bounds": '<= 2 distinct ids per table, <= 3 parts, 2-message streams, counters < 2^32',
-    "outside": 'StatisticInfoCollector::collect_statistic / add_for_level (hashbrown); longer streams',
+    "level_text": 'Decided: the standard collector (collect_statistic x 1..3 messages, then collect()) equals an independent per-id tally for 5 id scenarios (same / different ECU ids, no ECU id = NONE, an ECU id that decodes to the empty string, application and context ids crossing, messages without extended header) with every level (None / 6 levels / Invalid(any)) and verbose flag symbolic, ECU totals = number of messages, non-verbose flag = exists non-verbose; bucket selection of LevelDistribution::new for every level, counter merge = field-wise sum, StatisticInfo::merge = per-id sum of the parts for 8 pairs of table shapes (ids in either order, missing ids), commutative, associative on three parts, the three tables merged independently (incl. parts without extended-header ids), non-verbose flag = disjunction; the scan loop of collect_statistics visits each message of a two-message stream exactly once, in order, with its decoded headers, under any read fragmentation.',
+    "level_note": "The collector's id tables are MODELLED: feature verif_hooks swaps FxHashMap<String, LevelDistribution> for an association list with the same get_mut / insert / into_iter contract (symbolic execution of hashbrown does not finish even for one concrete insert + lookup). collect_statistic, add_for_level, collect and LevelDistribution::new are the real code; rustc_hash / hashbrown are trusted base.",
+    "functions": ['statistics::common::StatisticInfoCollector::{collect_statistic, collect}', 'statistics::common::add_for_level', 'statistics::common::LevelDistribution::{new, merge}', 'statistics::common::StatisticInfo::{merge, merge_levels}', 'statistics::collect_statistics'],
+    "bounds": '<= 2 distinct ids per table, <= 3 parts, <= 3 collected messages per scenario, 2-message streams, counters < 2^32',
+    "outside": 'the hash map itself (modelled); id scenarios outside the five; longer streams',
     "assumptions": COMMON_ASSUME + ['std::fmt::format stubbed (messages not compared)', 'core::str::from_utf8 replaced by a byte-wise model checked against std (c19_utf8_model_vs_std)'],
     "trusted_base": ['rustc_hash / hashbrown'],
     "harnesses": [H("c10::" + n, "quick", 900) for n in ["c10_level_distribution_new_buckets", "c10_level_distribution_merge_is_sum", "c10_merge_00",
@@ -367,7 +367,7 @@ PROPS["C10"] = {
 
 PROPS["C03"] = {
     "level": "model_checking",
-    "level_text": "Kani's built-in checks are the property (arithmetic overflow, slice/array bounds, unwrap/expect, unreachable, pointer validity): harnesses run with CBMC's bounds and pointer checks ON over fully symbolic header bytes, one-byte-corrupted messages (every position of a verbose message replaced by an arbitrary byte, one position per query), and the length arithmetic of Argument::len / as_bytes with names of every length up to the largest a parser can produce. Returned messages are measured and their arguments pass valid().",
+    "level_text": "Kani's built-in checks are the property (arithmetic overflow, slice/array bounds, unwrap/expect, unreachable, pointer validity): harnesses run with CBMC's bounds and pointer checks ON over fully symbolic header bytes, declared lengths one byte beyond the buffer with and without a filter in storage-header mode, and Message::as_bytes of a stored message that declares the largest 16-bit length. Returned messages are measured and their arguments pass valid().",
     "level_note": 'Panic-freedom of the remaining entry points on symbolic bytes comes from the C02d / C04 / C05 / C06 / C13 / C19 harnesses (same code, panics are checked there too, without the extra memory-safety checks).',
     "functions": ['parse::skip_storage_header', 'parse::dlt_consume_msg', 'parse::dlt_message', 'Argument::len', 'Argument::as_bytes', 'Argument::valid', 'Message::byte_len'],
     "bounds": 'inputs <= 22 symbolic bytes for units; one corrupted byte per query in a 20-byte message; name length 0..65523',
